@@ -23,7 +23,7 @@ from vlib import replay_cases, record_and_judge, judge, write_ndjson, Infra, log
 
 LINE_KEYS = ["toks", "hits", "raw", "shown", "acc", "whits", "ph", "phs", "phq", "qph", "qphs"]
 FILES = ["zz_verif_common_test.go", "zz_verif_fields_test.go"]
-BASE_DELIMS = [("awk", ""), ("str", ","), ("str", ", "), ("str", "TAB"), ("re", "[,:]"), ("re", ",+"), ("re", ",|, ")]
+BASE_DELIMS = [("awk", ""), ("str", ","), ("str", ", "), ("str", "TAB"), ("re", "[,:]"), ("re", ",+"), ("re", ",|, "), ("re", "b*")]
 # non-ASCII delimiters (MC_Fields.tla U8Delims): ids are symbol names; the first three are literal strings for
 # delimiterRegexp (one character / no meta character), the last is a regular expression
 U8_DELIMS = [("str", "e~"), ("str", "bxv"), ("str", "e~bxv"), ("re", "[e~bxv]")]
@@ -31,7 +31,7 @@ U8_IDS = {d[1] for d in U8_DELIMS}
 CLI_DELIMS = BASE_DELIMS + [("awk", "uni")] + U8_DELIMS    # awk:uni = AWK style again, on its own alphabet (MC_Fields.tla AwkU)
 ALL_DELIMS = BASE_DELIMS + [("re", ","), ("re", ", "), ("re", "TAB")] + U8_DELIMS
 UNIVERSES = ("base", "uni", "u8")
-N_BASE_DELIMS, N_BASE_SYMS, N_U8_SYMS = 10, 7, 8
+N_BASE_DELIMS, N_BASE_SYMS, N_U8_SYMS = 11, 7, 8
 J_ALPHABET = ["a", "b", ",", ":", " ", "TAB", "e~", "a", ",", " ", "han", "A~", "c", "1", ";", "-", "/"]
 J_TERMSYMS = ["a", "b", ",", ":", "e~", "han", "A~", "c", "1", ";", "-", "/", "e`", "bxh", "bxv"]
 # characters that are not AWK blanks although something else takes them for white space (control characters, Unicode
@@ -365,8 +365,9 @@ def run(ctx):
             break
     ctx.assumptions += [
         "delimiters are the fixed menu awk / ',' / ', ' / TAB / e-acute / box-vertical / e-acute+box-vertical (literal) and "
-        "',' ', ' TAB '[,:]' ',+' ',|, ' '[e-acute box-vertical]' (regex; ',|, ' stands for leftmost-first alternation: the "
-        "first alternative that matches wins, not the longest); other regular expressions (empty matches) are not modelled; non-ASCII literal delimiters are bound on these three only (2-byte and 3-byte "
+        "',' ', ' TAB '[,:]' ',+' ',|, ' 'b*' '[e-acute box-vertical]' (regex; ',|, ' stands for leftmost-first alternation: the "
+        "first alternative that matches wins, not the longest; 'b*' for expressions that match the empty string: cut after every FindAll match, an empty first field - "
+        "code-derived); other regular expressions are not modelled; non-ASCII literal delimiters are bound on these three only (2-byte and 3-byte "
         "characters of the Basic Multilingual Plane, no combining sequences)",
         "AWK-style blanks are exactly TAB and SPACE; every other character (control characters, Unicode white space, any "
         "multi-byte character) is field content - bound on the characters of spec/FzfChars.tla only",
@@ -415,7 +416,7 @@ def rnd_expr(rng):
 def rnd_line(rng, d):
     n = rng.randint(5, 24)
     bias = {"awk": [" ", " ", "TAB"], ",": [",", ","], ", ": [",", " ", ","], "TAB": ["TAB", "TAB"],
-            "[,:]": [",", ":"], ",+": [",", ",", ","], ",|, ": [",", " ", ","], "e~": ["e~", "e~"], "bxv": ["bxv", "bxv"],
+            "[,:]": [",", ":"], ",+": [",", ",", ","], ",|, ": [",", " ", ","], "b*": ["b", "b", "e~", "han"], "e~": ["e~", "e~"], "bxv": ["bxv", "bxv"],
             "e~bxv": ["e~bxv", "e~bxv"], "[e~bxv]": ["e~", "bxv"]}[d[1] if d[0] != "awk" else "awk"]
     if d[0] != "awk" and d[1] in U8_IDS:
         pool = J_U8 + bias
